@@ -1,6 +1,9 @@
 """C09 — a live connection always has a timer, and closing always terminates.
 
-proof:   AQ.Props.C09 about AQ.Model.CloseTimer (generic in the time type)
+proof:   AQ.Props.C09 about AQ.Model.CloseTimer (generic in the time type);
+         AQ.Props.C09Timers about the product AQ.Model.ConnTimers = CloseTimer x
+         Recovery (timer sources and the closing-period PTO computed by the
+         recovery model, composed with C01Loss's loss-timeout facts)
 tie:     real client/server pairs (harness/sim.py) driven by PRNG scripts; the
          monitor harness/impl_close.py turns every public API call into the
          model op (inputs = observed sub-call values / packet classification)
@@ -463,6 +466,10 @@ def run_one(ctx, seed, kind="random", plan=None, collect=None):
         if "st=TERMINATED" in states and ("st=CLOSING" in states or "st=DRAINING" in states):
             nontriv = True
         cases.append((f"{seed}/{kind}/{name}", st.ops, st.outs))
+        # the recovery component of the product model, fed from the calls this very
+        # connection made on its `_loss` object (+ the glue points: values the close
+        # model was fed vs what the recovery MODEL computes at that moment)
+        cases.append((f"{seed}/{kind}/{name}/recovery", st.rec.ops, st.rec.outs, st.rec.glue))
         if collect is not None:
             for o in st.outs:
                 for tok in o.split(" | ")[1].split()[:1]:
@@ -472,18 +479,41 @@ def run_one(ctx, seed, kind="random", plan=None, collect=None):
 
 
 def correspond(ctx, name, cases):
-    """cases: (key, ops, impl_outs) -> diff against the compiled model"""
+    """cases: (key, ops, impl_outs[, glue]) -> diff against the compiled model.
+    `glue` (product CloseTimer x Recovery): at line i of a recovery case the
+    recovery MODEL's loss-detection time / probe timeout must equal, bit for bit,
+    the value the close model was fed at that moment — then the product's
+    get_timer (close model's get_timer over the recovery model's sources) is the
+    real get_timer() that the close lines are compared with."""
     if not cases:
         return 0
-    all_ops = [l for _, ops, _ in cases for l in ops]
-    impl = [l for _, _, outs in cases for l in outs]
+    all_ops = [l for c in cases for l in c[1]]
+    impl = [l for c in cases for l in c[2]]
     model = lean.run_driver(all_ops)
-    mism = core.diff_streams(ctx, name, [ops for _, ops, _ in cases], impl, model)
+    mism = core.diff_streams(ctx, name, [c[1] for c in cases], impl, model)
     for m in mism[:3]:
         if m[0] >= 0:
             ci, oi, il, ml = m
-            key, ops, _ = cases[ci]
+            key, ops = cases[ci][0], cases[ci][1]
             ctx.disagreement(name, {"case": key, "ops": ops[max(0, oi - 6): oi + 1]}, ml, il, oi)
+    nglue = 0
+    if len(model) == len(all_ops):
+        base = 0
+        bad = 0
+        for c in cases:
+            for idx, what, fed in (c[3] if len(c) > 3 else ()):
+                nglue += 1
+                toks = model[base + idx].split()
+                got = None
+                if len(toks) == 3 and toks[0] == "ok":
+                    got = toks[1] if what == "ldt" else toks[2].split("=", 1)[-1]
+                if got != fed and bad < 3:
+                    bad += 1
+                    ctx.disagreement(name + "-product-glue", {"case": c[0], "ops": c[1][max(0, idx - 6): idx + 1],
+                                                              "source": what},
+                                     f"recovery model {what}={got}", f"close model was fed {fed}", idx)
+            base += len(c[1])
+    ctx.notes["product_glue_points"] = ctx.notes.get("product_glue_points", 0) + nglue
     ctx.cov["traces_validated_against_impl"] += len(cases)
     return len(mism)
 
@@ -558,7 +588,7 @@ def main(tier):
     logging.disable(logging.CRITICAL)
     from harness import frames as F
 
-    ctx.prove(["AQ.Props.C09"], [])
+    ctx.prove(["AQ.Props.C09", "AQ.Props.C09Timers"], [])
     ctx.cov["trusted_base"] = [
         "Lean 4.33.0 kernel (+ leanchecker in thorough tier)",
         "axioms: subset of {propext, Classical.choice, Quot.sound} (audited by #print axioms)",
@@ -575,7 +605,11 @@ def main(tier):
         "fed datagrams and timers can be driven to TERMINATED and connect() would then re-arm its deadline)",
         "documented usage: datagrams_to_send follows receive_datagram/handle_timer/close at the same `now`; "
         "handle_timer is called with now >= a deadline get_timer() returned earlier",
-        "ack/loss/pacing deadlines and PTO / idle-timeout values are inputs (AQ.Model.Recovery / C08 cover their computation); "
+        "product (C09Timers): the loss-detection deadline and the closing-period PTO are computed by AQ.Model.Recovery, fed "
+        "from the calls each real connection makes on its own _loss object (bit-exact state after every call) and glued to the "
+        "close model at every get_timer()/_close_begin (recovery model's value == value the close model was fed); the VALUES "
+        "stored into ack_at / _pacing_at and idle-timeout values stay inputs; usage hypothesis of C09Timers adds C01Loss's "
+        "increasing packet numbers per space; the no-re-fire fact of the loss timer needs C01Loss's LossOrderFacts (IEEE one-ulp caveat); "
         "progress of the ack/loss/pacing timers under repeated firing is checked empirically only (blackout finale)",
     ]
     thorough = tier == "thorough"
